@@ -194,6 +194,20 @@ class NormCtx:
                         self.facts[key] = v >= 0
         return v
 
+    def sqrt_quotient(self, p):
+        """Q / s with Q a constant multiple of the radicand of the sqrt atom s is c * s (since s*s = radicand)"""
+        P = self.P
+        if len(p) < 2 or not P.sqrt_rad: return p
+        first = next(iter(p))
+        for a, e in first:
+            if e == -1 and a in P.sqrt_rad and all((a, -1) in m for m in p):
+                Q = {tuple(t for t in m if t[0] != a): c for m, c in p.items()}
+                cq, kq, _ = P.canon(Q)
+                cr, kr, _ = P.canon(P.sqrt_rad[a])
+                if kq == kr:
+                    return {((a, 1),): cq / cr}
+        return p
+
     def tr(self, n):
         r = self.cache.get(n.id)
         if r is not None: return r
@@ -213,6 +227,7 @@ class NormCtx:
                     if not P.cleared(p): p = {}
                 except Exception:
                     pass
+            p = self.sqrt_quotient(p)
             c, key, q = P.canon(p)
             if not p:
                 lhs = z3.RealVal(0)
@@ -234,6 +249,16 @@ class NormCtx:
             s.add(self.tr(n))
         for f in self.facts.values():
             s.add(f)
+        # link every sqrt atom that occurs on its own with its radicand polynomial when both have a variable: s*s = radicand
+        P = self.P
+        for a, rad in P.sqrt_rad.items():
+            ks = P.key_of({((a, 1),): 1})
+            vs = self.vars.get(ks)
+            if vs is None: continue
+            cr, kr, _ = P.canon(rad)
+            vr = self.vars.get(kr)
+            if vr is not None:
+                s.add(vs * vs == z3.RealVal(str(cr)) * vr)
         return s.check() == z3.unsat
 
 def norm_of(z):
@@ -371,6 +396,7 @@ class SamplePool:
         self.n = n
         self.points = []      # list of (env, cache)
         self.vars = {}
+        self.custom = None    # optional fn(rng) -> {name: Fraction} giving problem-specific sample points
 
     def gen_value(self, name, kind):
         r = self.rng
@@ -402,9 +428,13 @@ class SamplePool:
         if new:
             if not self.points:
                 self.points = [({}, {}) for _ in range(self.n)]
-            for env, cache in self.points:
+                self.custom_env = [self.custom(self.rng) if (self.custom is not None and k % 4 != 0) else None for k in range(self.n)]
+            for k, (env, cache) in enumerate(self.points):
+                ce = self.custom_env[k] if k < len(getattr(self, 'custom_env', [])) else None
                 for nm in new:
-                    env[nm] = self.gen_value(nm, self.vars[nm])
+                    if nm in env: continue
+                    if ce is not None and nm in ce: env[nm] = ce[nm]
+                    else: env[nm] = self.gen_value(nm, self.vars[nm])
 
     def holds(self, point, node):
         try:
@@ -442,6 +472,8 @@ class PathController:
         self.generic_position = False
         self.generic_assumed = []
         self._gp_seen = set()
+        self.branch_filter = None
+        self.filter_log = []
         self.stats = {'branch_queries': 0, 'forks': 0, 'forced': 0, 'replayed': 0}
         self._solver = None
 
@@ -455,6 +487,7 @@ class PathController:
         self._solver.set('timeout', self.branch_timeout_ms)
         self._asserted_defs = set()
         self.live_points = None
+        self.filter_log = []
         for a in self.assumptions:
             self._assert(a)
 
@@ -489,7 +522,7 @@ class PathController:
         if node is S.FALSE: raise PathEnd('assumption false')
         self._assert(node)
 
-    def _check(self, extra_node):
+    def _check(self, extra_node, cheap=False):
         if self.witness(extra_node):
             return z3.sat
         # fresh (non-incremental) solver: lets z3 pick nlsat for QF_NRA, which the incremental core does not use.
@@ -504,22 +537,68 @@ class PathController:
         except RecursionError:
             pass
         self.z.queries += 1; self.z.solver_time += time.time() - t
+        if cheap:
+            return z3.unknown
         sl, dropped = slice_context(self.z, self.pc, extra_node)
         if dropped:
             r, _ = _solve(self.z, sl + [extra_node], self.branch_timeout_ms)
             if r == z3.unsat:
                 return r
-        r, _ = _solve(self.z, self.pc + [extra_node], self.branch_timeout_ms)
+        r, sv = _solve(self.z, self.pc + [extra_node], self.branch_timeout_ms)
+        if r == z3.sat and self.use_sampling:
+            self.harvest(sv)
         return r
 
+    def harvest(self, sv):
+        """turn a solver model of (pc and cond) into a sample point, so that later feasibility questions on this path are
+        answered by evaluation (a verified model is a model)"""
+        try:
+            m = sv.model()
+            env = {}
+            for nm, kind in self.pool.vars.items():
+                if kind[0] == 'R': v = m.eval(z3.Real(nm), model_completion=True)
+                elif kind[0] == 'I': v = m.eval(z3.Int(nm), model_completion=True)
+                else: v = m.eval(z3.Bool(nm), model_completion=True)
+                env[nm] = z3_to_fraction(v)
+                if kind[0] == 'I': env[nm] = int(env[nm])
+            pt = (env, {})
+            if all(self.pool.holds(pt, n) for n in self.pc):
+                self.pool.points.append(pt)
+                if hasattr(self.pool, 'custom_env'): self.pool.custom_env.append(None)
+                if self.live_points is not None: self.live_points.append(pt)
+        except Exception:
+            pass
+
     def decide(self, cond, it):
+        fl = self.branch_filter(self, cond) if self.branch_filter is not None else None
         if self.pos < len(self.prefix):
             d = self.prefix[self.pos]
             self.pos += 1
             self.trace.append(d)
             self.stats['replayed'] += 1
             self._assert(cond if d.taken else S.bnot(cond))
+            if fl is not None: self.filter_log.append((fl[0], d.taken == fl[1]))
             return d.taken
+        if fl is not None:
+            kind, event, allowed = fl
+            cheap = len(allowed) == 1     # side imposed by the exploration bound: evaluation witness / normalised refutation only
+            rt = self._check(cond, cheap) if True in allowed else z3.unsat
+            rf = self._check(S.bnot(cond), cheap) if False in allowed else z3.unsat
+            ft = rt != z3.unsat; ff = rf != z3.unsat
+            if not ft and not ff:
+                raise PathEnd('no outcome allowed by the exploration bound is feasible')
+            self.pos += 1
+            if ft and ff:
+                self.stats['forks'] += 1
+                self.worklist.append(list(self.trace) + [Decision(False, False)])
+                taken = True; forced = False
+            else:
+                taken = ft; forced = len(allowed) == 2
+                if len(allowed) == 1: self.stats['bounded_out'] = self.stats.get('bounded_out', 0) + 1
+            self.trace.append(Decision(taken, forced))
+            self._assert(cond if taken else S.bnot(cond))
+            self.filter_log.append((kind, taken == event))
+            return taken
         guard = self.degeneracy_guard(cond) if self.generic_position else None
         if guard is not None:
             # degeneracy guard on a real quantity (x == c, |x| <= tiny, |x| <= eps*|y|): the claim is restricted to inputs
@@ -568,11 +647,11 @@ class PathController:
         """constant <= 1e-100, or a product containing a constant factor <= 1e-10 (epsilon-scaled quantity)"""
         c = S.cval(n)
         if c is not None:
-            return 0 <= c <= Fraction(1, 10 ** 100)
+            return 0 < c <= Fraction(1, 10 ** 100)
         if n.op == 'mul':
             for t in n.args:
                 ct = S.cval(t)
-                if ct is not None and 0 <= ct <= Fraction(1, 10 ** 10): return True
+                if ct is not None and 0 < ct <= Fraction(1, 10 ** 10): return True
                 if t.op == 'mul' and self._small(t): return True
         return False
 
